@@ -35,7 +35,7 @@ class A:
         self.eff = eff
         self.folder = folder
         self.flow = flow
-        self.sim = PathSim(flow)  # path-wise facts (nullness, difference bounds, lengths): shared so that helper summaries are computed once
+        self.sim = flow.sim = PathSim(flow)  # path-wise facts (nullness, difference bounds, lengths): shared so that helper summaries are computed once
 
 
 Verdict = t.Optional[t.Tuple[bool, str]]
@@ -1330,6 +1330,403 @@ def review(a: A, s: Site, e: str) -> tuple[str, bool, str] | None:
 # form parser silent mode (not a site role: it makes a re-raise dead)
 
 
+# -- what a call hands to the `silent` parameter: explicit keyword, position, or a key of a `**mapping` whose keys fold
+
+
+_DICT_NO_NEW = {"pop", "popitem", "get", "items", "keys", "values", "copy", "clear", "__contains__", "__len__", "__getitem__", "__iter__"}
+
+
+def _str_consts(folder, f: FuncInfo, e: ast.AST | None, depth: int = 0) -> list[str] | None:
+    """the texts a constant collection holds: a tuple / list / set display of constants, a dict display (its keys), a
+    module constant, a local bound once to one of those, sorted() / tuple() / ... / .keys() / + around them."""
+    if e is None or depth > 6:
+        return None
+    if isinstance(e, (ast.Tuple, ast.List, ast.Set)):
+        out: list[str] = []
+        for x in e.elts:
+            if isinstance(x, ast.Starred):
+                sub = _str_consts(folder, f, x.value, depth + 1)
+                if sub is None:
+                    return None
+                out += sub
+            else:
+                vs = _str_values(folder, f, x, depth + 1)
+                if vs is None:
+                    return None
+                out += vs
+        return out
+    if isinstance(e, ast.Dict):
+        if any(k is None for k in e.keys):
+            return None
+        return _str_consts(folder, f, ast.Tuple(elts=list(e.keys), ctx=ast.Load()), depth + 1)
+    if isinstance(e, ast.Constant):
+        return None  # a text is not a collection of names
+    if isinstance(e, ast.BinOp) and isinstance(e.op, (ast.Add, ast.BitOr)):
+        l, r = _str_consts(folder, f, e.left, depth + 1), _str_consts(folder, f, e.right, depth + 1)
+        return None if l is None or r is None else l + r
+    if isinstance(e, ast.Call):
+        d = dotted(e.func)
+        if d in ("sorted", "list", "tuple", "reversed", "set", "frozenset", "iter") and len(e.args) == 1:
+            return _str_consts(folder, f, e.args[0], depth + 1)
+        if isinstance(e.func, ast.Attribute) and e.func.attr == "keys" and not e.args:
+            return _str_consts(folder, f, e.func.value, depth + 1)
+        if d in ("dict", "dict.fromkeys"):
+            tbl = _kw_table(folder, f, e, depth + 1)
+            return None if tbl is None else list(tbl)
+        return None
+    if isinstance(e, ast.DictComp):
+        tbl = _kw_table(folder, f, e, depth + 1)
+        return None if tbl is None else list(tbl)
+    if isinstance(e, ast.Name):
+        binds = astq.assigns_to(f.node, e.id)
+        if e.id in f.params:
+            return None
+        if binds:
+            if len(binds) != 1 or binds[0][1] is None or isinstance(binds[0][0], (ast.For, ast.AsyncFor)):
+                return None
+            if any(isinstance(c.func, ast.Attribute) and isinstance(c.func.value, ast.Name) and c.func.value.id == e.id and c.func.attr not in _NO_NEW | _DICT_NO_NEW for c in astq.calls(f.node, nested=False)):
+                return None  # the local collection is changed after it was bound
+            out = _str_consts(folder, f, binds[0][1], depth + 1)
+            if out is None:
+                return None
+            # item stores into the local: a key that iterates the local itself adds nothing, other keys must fold
+            for n in walk_no_nested(f.node):
+                if isinstance(n, (ast.Assign, ast.AugAssign, ast.AnnAssign)):
+                    for tg in (n.targets if isinstance(n, ast.Assign) else [n.target]):
+                        for x in [tg, *ast.walk(tg)]:
+                            if isinstance(x, ast.Subscript) and isinstance(x.value, ast.Name) and x.value.id == e.id and isinstance(x.ctx, ast.Store):
+                                if _iterates(x.slice, e.id):
+                                    continue
+                                vs = _str_values(folder, f, x.slice, depth + 1)
+                                if vs is None:
+                                    return None
+                                out = out + vs
+            return out
+    d = dotted(e)
+    if d:
+        try:
+            v = folder.name(f.module, d)
+        except Exception:
+            return None
+        if isinstance(v, (tuple, list, set, frozenset, dict)) and all(isinstance(x, str) for x in v):
+            return sorted(v) if isinstance(v, (set, frozenset)) else list(v)
+    return None
+
+
+def _iterates(key: ast.AST, coll: str) -> bool:
+    """`key` is the plain variable of an enclosing for loop over the local collection `coll` itself."""
+    if not isinstance(key, ast.Name):
+        return False
+    cur = getattr(key, "_parent", None)
+    while cur is not None:
+        if isinstance(cur, (ast.For, ast.AsyncFor)) and isinstance(cur.target, ast.Name) and cur.target.id == key.id:
+            it = cur.iter
+            while isinstance(it, ast.Call) and ((dotted(it.func) in ("list", "tuple", "sorted", "iter") and len(it.args) == 1) or (isinstance(it.func, ast.Attribute) and it.func.attr == "keys" and not it.args)):
+                it = it.args[0] if it.args else it.func.value  # type: ignore[union-attr]
+            return isinstance(it, ast.Name) and it.id == coll
+        cur = getattr(cur, "_parent", None)
+    return False
+
+
+def _str_values(folder, f: FuncInfo, e: ast.AST, depth: int = 0) -> list[str] | None:
+    """the texts a key expression can be: a constant, a module constant, the variable of an enclosing for loop /
+    comprehension over a constant collection (also one component of constant tuples), a local bound to constants."""
+    if depth > 6:
+        return None
+    if isinstance(e, ast.Constant):
+        return [e.value] if isinstance(e.value, str) else None
+    if isinstance(e, ast.IfExp):
+        l, r = _str_values(folder, f, e.body, depth + 1), _str_values(folder, f, e.orelse, depth + 1)
+        return None if l is None or r is None else l + r
+    if isinstance(e, ast.Name):
+        cur = getattr(e, "_parent", None)
+        while cur is not None and cur is not f.node:
+            gens = []
+            if isinstance(cur, (ast.For, ast.AsyncFor)):
+                gens = [(cur.target, cur.iter)]
+            elif isinstance(cur, (ast.ListComp, ast.SetComp, ast.GeneratorExp, ast.DictComp)):
+                gens = [(g.target, g.iter) for g in cur.generators]
+            for tg, it in gens:
+                got = _target_values(folder, f, tg, it, e.id, depth)
+                if got is not False:
+                    return got
+            cur = getattr(cur, "_parent", None)
+        binds = astq.assigns_to(f.node, e.id)
+        if binds and e.id not in f.params:
+            out: list[str] = []
+            for _, v in binds:
+                vs = _str_values(folder, f, v, depth + 1) if v is not None and not isinstance(v, ast.Name) else None
+                if vs is None:
+                    return None
+                out += vs
+            return out
+    d = dotted(e)
+    if d and not (isinstance(e, ast.Name) and e.id in f.params):
+        try:
+            v = folder.name(f.module, d)
+        except Exception:
+            return None
+        return [v] if isinstance(v, str) else None
+    return None
+
+
+def _target_values(folder, f: FuncInfo, tg: ast.AST, it: ast.AST, name: str, depth: int):
+    """the loop / comprehension binds `name`: its values (None = not constant); False = this loop does not bind it."""
+    if isinstance(tg, ast.Name):
+        if tg.id != name:
+            return False
+        return _str_consts(folder, f, it, depth + 1)
+    if not any(isinstance(x, ast.Name) and x.id == name for x in ast.walk(tg)):
+        return False
+    if isinstance(tg, (ast.Tuple, ast.List)) and not any(isinstance(x, ast.Starred) for x in tg.elts):
+        idx = next((i for i, x in enumerate(tg.elts) if isinstance(x, ast.Name) and x.id == name), None)
+        if idx is None:
+            return None
+        # enumerate(K) / zip(K, ...) / K.items() of a dict display / a display of constant tuples
+        if isinstance(it, ast.Call) and dotted(it.func) == "enumerate" and idx == 1 and it.args:
+            return _str_consts(folder, f, it.args[0], depth + 1)
+        if isinstance(it, ast.Call) and dotted(it.func) == "zip" and idx < len(it.args) and not any(isinstance(x, ast.Starred) for x in it.args):
+            return _str_consts(folder, f, it.args[idx], depth + 1)
+        if isinstance(it, ast.Call) and isinstance(it.func, ast.Attribute) and it.func.attr == "items" and not it.args and idx == 0:
+            return _str_consts(folder, f, it.func.value, depth + 1)
+        src = it
+        if isinstance(src, ast.Name) and src.id not in f.params:
+            binds = astq.assigns_to(f.node, src.id)
+            if len(binds) == 1 and binds[0][1] is not None:
+                src = binds[0][1]
+        if isinstance(src, (ast.Tuple, ast.List, ast.Set)):
+            out: list[str] = []
+            for x in src.elts:
+                if not (isinstance(x, (ast.Tuple, ast.List)) and len(x.elts) == len(tg.elts)):
+                    return None
+                vs = _str_values(folder, f, x.elts[idx], depth + 1)
+                if vs is None:
+                    return None
+                out += vs
+            return out
+    return None
+
+
+def _kw_table(folder, f: FuncInfo, e: ast.AST | None, depth: int = 0) -> dict[str, list[ast.AST | None]] | None:
+    """keys -> value expressions (None: some value) a mapping expression can hold; None when the keys do not fold.
+    Dict displays and comprehensions, dict(...) of keywords / pairs / zip / another mapping, fromkeys, `|`, copies,
+    conditional expressions, and a local dict with every store into it anywhere in the function (item assignment with a
+    constant key or a loop variable over a constant collection, update, setdefault, |=)."""
+    if e is None or depth > 6:
+        return None
+    tbl: dict[str, list[ast.AST | None]] = {}
+
+    def put(keys: list[str] | None, val: ast.AST | None) -> bool:
+        if keys is None:
+            return False
+        for k in keys:
+            tbl.setdefault(k, []).append(val)
+        return True
+
+    def join(other: dict[str, list[ast.AST | None]] | None) -> bool:
+        if other is None:
+            return False
+        for k, vs in other.items():
+            tbl.setdefault(k, []).extend(vs)
+        return True
+
+    def pairs(x: ast.AST) -> bool:
+        """an iterable of (key, value) pairs, or a mapping."""
+        if isinstance(x, ast.Call) and dotted(x.func) == "zip" and len(x.args) == 2:
+            return put(_str_consts(folder, f, x.args[0], depth + 1), None)
+        if isinstance(x, (ast.List, ast.Tuple, ast.Set)):
+            for el in x.elts:
+                if not (isinstance(el, (ast.Tuple, ast.List)) and len(el.elts) == 2 and put(_str_values(folder, f, el.elts[0], depth + 1), el.elts[1])):
+                    return False
+            return True
+        if isinstance(x, (ast.ListComp, ast.GeneratorExp, ast.SetComp)) and isinstance(x.elt, (ast.Tuple, ast.List)) and len(x.elt.elts) == 2:
+            return put(_str_values(folder, f, x.elt.elts[0], depth + 1), x.elt.elts[1])
+        if isinstance(x, ast.Call) and isinstance(x.func, ast.Attribute) and x.func.attr == "items" and not x.args:
+            return join(_kw_table(folder, f, x.func.value, depth + 1))
+        return join(_kw_table(folder, f, x, depth + 1))
+
+    def call_into(c: ast.Call) -> bool:
+        """dict(...) / <dict>.update(...): positional mapping or pairs, then keywords."""
+        if len(c.args) > 1 or any(isinstance(x, ast.Starred) for x in c.args):
+            return False
+        if c.args and not pairs(c.args[0]):
+            return False
+        for kw in c.keywords:
+            if kw.arg is None:
+                if not join(_kw_table(folder, f, kw.value, depth + 1)):
+                    return False
+            else:
+                put([kw.arg], kw.value)
+        return True
+
+    if isinstance(e, ast.NamedExpr):
+        return _kw_table(folder, f, e.value, depth + 1)
+    if isinstance(e, ast.Dict):
+        for k, v in zip(e.keys, e.values):
+            if k is None:
+                if not join(_kw_table(folder, f, v, depth + 1)):
+                    return None
+            elif not put(_str_values(folder, f, k, depth + 1), v):
+                return None
+        return tbl
+    if isinstance(e, ast.DictComp):
+        return tbl if put(_str_values(folder, f, e.key, depth + 1), e.value) else None
+    if isinstance(e, ast.IfExp):
+        return tbl if join(_kw_table(folder, f, e.body, depth + 1)) and join(_kw_table(folder, f, e.orelse, depth + 1)) else None
+    if isinstance(e, ast.BoolOp):
+        return tbl if all(join(_kw_table(folder, f, v, depth + 1)) for v in e.values) else None
+    if isinstance(e, ast.BinOp) and isinstance(e.op, ast.BitOr):
+        return tbl if join(_kw_table(folder, f, e.left, depth + 1)) and join(_kw_table(folder, f, e.right, depth + 1)) else None
+    if isinstance(e, ast.Call):
+        d = dotted(e.func)
+        if d == "dict":
+            return tbl if call_into(e) else None
+        if d == "dict.fromkeys" and e.args:
+            return tbl if put(_str_consts(folder, f, e.args[0], depth + 1), e.args[1] if len(e.args) > 1 else ast.Constant(None)) else None
+        if d is not None and d.rsplit(".", 1)[-1] == "cast" and len(e.args) == 2:
+            return _kw_table(folder, f, e.args[1], depth + 1)
+        if isinstance(e.func, ast.Attribute) and e.func.attr == "copy" and not e.args:
+            return _kw_table(folder, f, e.func.value, depth + 1)
+        # a private helper that builds the mapping: self.<method>(...) / a function of the same module
+        g = None
+        if isinstance(e.func, ast.Attribute) and isinstance(e.func.value, ast.Name) and f.cls is not None and f.params and e.func.value.id == f.params[0]:
+            _, w = folder.repo.lookup(f.cls, e.func.attr)
+            g = w if isinstance(w, FuncInfo) else None
+        elif isinstance(e.func, ast.Name) and e.func.id not in f.params and not astq.assigns_to(f.node, e.func.id):
+            fq = folder.repo.resolve(f.module, e.func.id, f.module.local_imports(f.node))
+            try:
+                g = folder.repo.func(fq.removeprefix("werkzeug.")) if fq and fq.startswith("werkzeug.") else None
+            except Exception:
+                g = None
+        if g is not None and g is not f and not any(isinstance(x, (ast.Yield, ast.YieldFrom)) for x in walk_no_nested(g.node)):
+            rets = astq.returns_of(g.node)
+            if rets and all(r.value is not None and join(_kw_table(folder, g, r.value, depth + 2)) for r in rets):
+                return tbl
+        return None
+    if isinstance(e, ast.Name):
+        name = e.id
+        if name in f.params:
+            return None
+        binds = astq.assigns_to(f.node, name)
+        if not binds:
+            try:
+                v = folder.name(f.module, name)
+            except Exception:
+                return None
+            if isinstance(v, dict) and all(isinstance(k, str) for k in v):
+                put(list(v), None)
+                return tbl
+            return None
+        for stmt, v in binds:
+            if isinstance(stmt, ast.AugAssign) and isinstance(stmt.op, ast.BitOr):
+                if not join(_kw_table(folder, f, stmt.value, depth + 1)):
+                    return None
+            elif v is None or not join(_kw_table(folder, f, v, depth + 1)):
+                return None
+        for n in walk_no_nested(f.node):
+            if isinstance(n, (ast.Assign, ast.AugAssign, ast.AnnAssign)):
+                tgs = n.targets if isinstance(n, ast.Assign) else [n.target]
+                for tg in tgs:
+                    if isinstance(tg, ast.Subscript) and isinstance(tg.value, ast.Name) and tg.value.id == name:
+                        if _iterates(tg.slice, name):
+                            for k in tbl:
+                                tbl[k].append(n.value if isinstance(n, ast.Assign) else None)  # re-stores under the keys it has
+                        elif not put(_str_values(folder, f, tg.slice, depth + 1), n.value if isinstance(n, ast.Assign) else None):
+                            return None
+                    elif isinstance(tg, (ast.Tuple, ast.List)) and any(isinstance(x, ast.Subscript) and isinstance(x.value, ast.Name) and x.value.id == name for x in ast.walk(tg)):
+                        return None
+            elif isinstance(n, ast.Call):
+                fn = n.func
+                if isinstance(fn, ast.Attribute) and isinstance(fn.value, ast.Name) and fn.value.id == name:
+                    if fn.attr == "update":
+                        if not call_into(n):
+                            return None
+                    elif fn.attr in ("setdefault", "__setitem__") and len(n.args) == 2:
+                        if not put(_str_values(folder, f, n.args[0], depth + 1), n.args[1]):
+                            return None
+                    elif fn.attr not in _DICT_NO_NEW:
+                        return None
+                elif any(isinstance(x, ast.Name) and x.id == name for x in n.args) or any(kw.arg is not None and isinstance(kw.value, ast.Name) and kw.value.id == name for kw in n.keywords):
+                    if dotted(fn) not in ("dict", "len", "sorted", "list", "tuple", "bool", "repr", "str", "print", "isinstance"):
+                        return None  # handed to code that may store into it
+        return tbl
+    return None
+
+
+def _is_true(e: ast.AST | None) -> bool:
+    return isinstance(e, ast.Constant) and e.value is True
+
+
+def _silent_argument(repo, folder, mk: FuncInfo, init: FuncInfo) -> tuple[bool, str]:
+    """does the construction of the form parser in `mk` (or in a private helper it calls on self) hand anything but the
+    constant True to the parser's `silent` parameter?  Keyword, position, or a key of a `**mapping`: the mapping's keys
+    are folded; keys that do not fold are ANALYSIS-ERROR (the argument may or may not be there)."""
+    a_ = init.node.args  # type: ignore[attr-defined]
+    pos = [x.arg for x in a_.posonlyargs + a_.args][1:]
+    spos = pos.index("silent") if "silent" in pos else None
+    funcs = [mk]
+    if mk.cls is not None and mk.params:
+        work = [mk]
+        while work:
+            g = work.pop()
+            for c in astq.calls(g.node, nested=False):
+                if isinstance(c.func, ast.Attribute) and isinstance(c.func.value, ast.Name) and g.params and c.func.value.id == g.params[0]:
+                    _, w = repo.lookup(mk.cls, c.func.attr)
+                    if isinstance(w, FuncInfo) and w not in funcs and w.fq.startswith("werkzeug.") and len(funcs) < 8:
+                        funcs.append(w)
+                        work.append(w)
+    passed: list[str] = []
+    seen: list[str] = []
+    for g in funcs:
+        for c in astq.calls(g.node):
+            for kw in c.keywords:
+                if kw.arg == "silent":
+                    seen.append(f"keyword silent={norm(kw.value)[:30]} in {g.name}")
+                    if not _is_true(kw.value):
+                        passed.append(f"silent={norm(kw.value)[:30]}")
+                elif kw.arg is None:
+                    tbl = _kw_table(folder, g, kw.value)
+                    if tbl is None:
+                        raise AnalysisError(f"C07 form parser silent mode: {g.qualname}: the keys of `**{norm(kw.value)[:40]}` in `{norm(c)[:60]}` do not fold to constants: whether `silent` is passed is not known")
+                    seen.append(f"**{norm(kw.value)[:30]} in {g.name} has the keys {sorted(tbl)}")
+                    for v in tbl.get("silent", []):
+                        if not _is_true(v):
+                            passed.append(f"**{norm(kw.value)[:30]} may carry silent={norm(v)[:30] if v is not None else '?'}")
+            # positional: only for a call of the parser class itself
+            if spos is not None and _constructs_parser(repo, g, c, init):
+                if any(isinstance(x, ast.Starred) for x in c.args):
+                    raise AnalysisError(f"C07 form parser silent mode: {g.qualname}: `{norm(c)[:60]}` passes starred positional arguments to the form parser")
+                if len(c.args) > spos:
+                    seen.append(f"positional silent={norm(c.args[spos])[:30]} in {g.name}")
+                    if not _is_true(c.args[spos]):
+                        passed.append(f"positional silent={norm(c.args[spos])[:30]}")
+    return bool(passed), "; ".join(passed or seen or ["no call passes it"])
+
+
+def _constructs_parser(repo, g: FuncInfo, c: ast.Call, init: FuncInfo) -> bool:
+    """the callee is the form parser class: <x>.form_data_parser_class, a local bound to that, or a name that resolves
+    to the class (or a subclass) whose __init__ this is."""
+    fn = c.func
+
+    def is_cls_attr(x: ast.AST | None) -> bool:
+        return isinstance(x, ast.Attribute) and x.attr == "form_data_parser_class"
+
+    if is_cls_attr(fn):
+        return True
+    if isinstance(fn, ast.Name):
+        vals = [v for _, v in astq.assigns_to(g.node, fn.id)]
+        if vals and all(is_cls_attr(v) for v in vals):
+            return True
+    d = dotted(fn)
+    if d and init.cls is not None:
+        fq = repo.resolve(g.module, d, g.module.local_imports(g.node))
+        k = repo.try_cls(fq) if fq else None
+        if k is not None and any(getattr(b, "fq", None) == init.cls.fq for b in repo.mro(k)):
+            return True
+    return False
+
+
+
 def _means_falsy(test: ast.AST, label: str, attr_txt: str) -> bool:
     """the (test, edge) says that <attr> is false: `not self.silent`, `self.silent is False`, `self.silent == False`,
     `self.silent is not True` ... in any polarity."""
@@ -1341,6 +1738,55 @@ def _means_falsy(test: ast.AST, label: str, attr_txt: str) -> bool:
         if k in (f"{attr_txt} is {const}", f"{const} is {attr_txt}", " == ".join(sorted([attr_txt, const]))):
             return val == means_false_when
     return False
+
+
+def _silent_stored(init: FuncInfo) -> bool:
+    """every store into <self>.silent in the constructor keeps the parameter's value: the parameter itself, through a
+    local copy, bool(silent), or the constant True (then the mode is always silent); plain and tuple assignment.  A
+    constant False / `not silent` is a false premise; any other shape is ANALYSIS-ERROR."""
+    sn = init.params[0]
+    vals: list[ast.AST | None] = []
+    for s_ in walk_no_nested(init.node):
+        if isinstance(s_, (ast.Assign, ast.AnnAssign)) and getattr(s_, "value", None) is not None:
+            for tg in (s_.targets if isinstance(s_, ast.Assign) else [s_.target]):
+                if astq.is_self_attr(tg, "silent", sn):
+                    vals.append(s_.value)
+                elif isinstance(tg, (ast.Tuple, ast.List)) and any(astq.is_self_attr(x, "silent", sn) for x in ast.walk(tg)):
+                    i = next((i for i, x in enumerate(tg.elts) if astq.is_self_attr(x, "silent", sn)), None)
+                    v = s_.value
+                    ok_shape = i is not None and isinstance(v, (ast.Tuple, ast.List)) and len(v.elts) == len(tg.elts) and not any(isinstance(x, ast.Starred) for x in [*v.elts, *tg.elts])
+                    vals.append(v.elts[i] if ok_shape else None)  # type: ignore[union-attr,index]
+        elif isinstance(s_, ast.AugAssign) and astq.is_self_attr(s_.target, "silent", sn):
+            vals.append(None)
+        elif isinstance(s_, ast.Call) and dotted(s_.func) == "setattr" and len(s_.args) == 3 and astq.const_str(s_.args[1]) == "silent":
+            vals.append(s_.args[2])
+    if not vals:
+        return False
+
+    def keeps(v: ast.AST | None, depth: int = 0) -> bool | None:
+        if v is None or depth > 3:
+            return None
+        if isinstance(v, ast.Constant):
+            return True if v.value is True else False
+        if isinstance(v, ast.UnaryOp) and isinstance(v.op, ast.Not):
+            return False if keeps(v.operand, depth + 1) is True else None
+        if isinstance(v, ast.Call) and dotted(v.func) == "bool" and len(v.args) == 1 and not v.keywords:
+            return keeps(v.args[0], depth + 1)
+        if isinstance(v, ast.Name):
+            binds = astq.assigns_to(init.node, v.id)
+            if v.id == "silent" and not binds:
+                return True
+            if binds and v.id not in init.params and all(b is not None for _, b in binds):
+                got = [keeps(b, depth + 1) for _, b in binds]
+                return True if all(g is True for g in got) else (False if any(g is False for g in got) else None)
+        return None
+
+    got = [keeps(v) for v in vals]
+    if any(g is False for g in got):
+        return False
+    if any(g is None for g in got):
+        raise AnalysisError(f"C07 form parser silent mode: {init.qualname} stores `{sn}.silent` in a shape that is not understood ({[norm(v)[:40] if v is not None else '?' for v in vals]})")
+    return True
 
 
 def p_form_parser_silent(ctx, folder):
@@ -1399,9 +1845,9 @@ def p_form_parser_silent(ctx, folder):
     kwo = [x.arg for x in a.kwonlyargs]
     if "silent" in kwo and a.kw_defaults[kwo.index("silent")] is not None:
         dflt = norm(a.kw_defaults[kwo.index("silent")])
-    stored = any(isinstance(s_, (ast.Assign, ast.AnnAssign)) and getattr(s_, "value", None) is not None and any(astq.is_self_attr(tg, "silent", init.params[0]) for tg in (s_.targets if isinstance(s_, ast.Assign) else [s_.target])) and isinstance(s_.value, ast.Name) and s_.value.id == "silent" for s_ in ast.walk(init.node))
+    stored = _silent_stored(init)
     mk = ctx.repo.func("wrappers.request.Request.make_form_data_parser")
-    passes = any(kw.arg == "silent" or kw.arg is None for c in astq.calls(mk.node) for kw in c.keywords)
+    passes, how_built = _silent_argument(ctx.repo, folder, mk, init)
     writes = [fn.fq for fn in ctx.repo.all_functions() if fn.fq != init.fq and any(isinstance(s_, (ast.Assign, ast.AugAssign, ast.AnnAssign)) and any(isinstance(t2, ast.Attribute) and t2.attr == "silent" for t2 in (s_.targets if isinstance(s_, ast.Assign) else [s_.target])) for s_ in ast.walk(fn.node))]
     ok = ok_h and dflt == "True" and stored and not passes and not writes
-    return ok, (dead if ok else []), f"handler re-raises only when self.silent is false: {ok_h}; default silent={dflt}; stored: {stored}; Request.make_form_data_parser passes silent: {passes}; other writers of .silent: {writes}"
+    return ok, (dead if ok else []), f"handler re-raises only when self.silent is false: {ok_h}; default silent={dflt}; stored: {stored}; Request.make_form_data_parser passes silent: {passes} [{how_built}]; other writers of .silent: {writes}"
